@@ -40,6 +40,8 @@ enum { EXC_NONE = 0, EXC_UNKNOWN = 1, EXC_out_of_range = 2, EXC_invalid_argument
        EXC_inconsistency_exception = 5, EXC_runtime_error = 6, EXC_logic_error = 7, EXC_execution_exception = 8 };
 
 /* std::gcd / std::lcm on I_t: gcd(|m|,|n|), gcd(0,0)=0; lcm = |m|/gcd*|n|, 0 if either is 0 */
+/* an index the simplifier cannot see through (CBMC 6.11 pointer imprecision work-around, see xtract.NestedElem) */
+static inline U_t cm_opq(U_t i) { U_t r; __CPROVER_assume(r == i); return r; }
 static inline I_t cm_abs(I_t a) { return a < 0 ? (I_t)-a : a; }
 static inline I_t cm_gcd(I_t m, I_t n)
 {
@@ -141,6 +143,8 @@ static inline double cm_ceil(double x)
   static inline T *NAME##_front(struct NAME *v) { __CPROVER_assert(v->n > 0, "vector::front on empty vector"); return &v->e[0]; } \
   static inline T *NAME##_idx(struct NAME *v, U_t i) { __CPROVER_assert(i < v->n, "vector index in range"); return &v->e[i]; } \
   static inline U_t NAME##_chk(struct NAME *v, U_t i) { __CPROVER_assert(i < v->n, "vector index in range"); return i; } \
+  /* pointer to element i as a case split over constant element addresses (see xtract.NestedElem) */ \
+  static inline T *NAME##_at(struct NAME *v, U_t i) { for (U_t k = 0; k < (CAP); k++) if (k == i) return &v->e[k]; return &v->e[0]; } \
   static inline struct NAME NAME##_new_n(U_t n, T x) { struct NAME v; CM_CAP_ASSERT(n <= CAP); v.n = n; for (U_t i = 0; i < CAP; i++) if (i < n) v.e[i] = x; return v; } \
   static inline void NAME##_resize(struct NAME *v, U_t n, T x) { CM_CAP_ASSERT(n <= CAP); for (U_t i = 0; i < CAP; i++) if (i >= v->n && i < n) v->e[i] = x; v->n = n; } \
   static inline void NAME##_assign_n(struct NAME *v, U_t n, T x) { CM_CAP_ASSERT(n <= CAP); for (U_t i = 0; i < CAP; i++) if (i < n) v->e[i] = x; v->n = n; } \
